@@ -206,7 +206,7 @@ class SubQueryLineageHolder(ColumnLineageMixin):
         qualified_map = {
             str(table): table for table in table_group if isinstance(table, Table)
         }
-        return alias_map | unqualified_map | qualified_map
+        return unqualified_map | qualified_map | alias_map
 
     def _get_target_table(self) -> Optional[Union[SubQuery, Table]]:
         table = None
